@@ -1,7 +1,8 @@
 """Bounded stand-in for C17: InstanceDecoder.decode on templates x vectors (extreme values -1, 0, 1, their float
 neighbours, random) x slack: valid instance with the template's suffixed name, bin size and item count, total item
 area still requiring min_bins bins (area > (min_bins - 1) * bin area, hence lower bound == min_bins), repeatable;
-instgen.Errors in [0, 1] and 0 for the template itself."""
+instgen.Errors in [0, 1] and 0 for the template itself; Hardness and ErrorsAndHardness in [0, 1] and Hardness identical
+for repeated evaluations (a few decoded instances, tiny budgets)."""
 from bounded.util import RealCodeTimeout, time_limit
 import random
 
@@ -11,6 +12,8 @@ import numpy as np
 def harness(tier, seed):
     from moptipyapps.binpacking2d.instance import Instance
     from moptipyapps.binpacking2d.instgen.errors import Errors
+    from moptipyapps.binpacking2d.instgen.errors_and_hardness import ErrorsAndHardness
+    from moptipyapps.binpacking2d.instgen.hardness import Hardness
     from moptipyapps.binpacking2d.instgen.inst_decoding import InstanceDecoder
     from moptipyapps.binpacking2d.instgen.instance_space import InstanceSpace
     rng = random.Random(seed + 17)
@@ -30,6 +33,7 @@ def harness(tier, seed):
     class _Stop(Exception):
         pass
     hung = 0
+    hard_left = 3 if tier == "quick" else 24
     try:
         for src in pool:
             space = InstanceSpace(src)
@@ -96,6 +100,25 @@ def harness(tier, seed):
                         continue
                     if not (0.0 <= e <= 1.0):
                         viol.append(("errors/range", info, f"Errors={e}"))
+                    if hard_left > 0 and mode >= 2 and slack == 1:
+                        # the hardness objectives run inner optimisers: a few decoded instances only, tiny budgets
+                        hard_left -= 1
+                        try:
+                            with time_limit(120.0):
+                                hd = Hardness(max_fes=40, n_runs=2)
+                                h1, h2 = float(hd.evaluate(g)), float(hd.evaluate(y))
+                                h3 = float(Hardness(max_fes=40, n_runs=2).evaluate(y2[0]))
+                                eh = float(ErrorsAndHardness(space, max_fes=40, n_runs=2).evaluate(g))
+                            evals += 4
+                            if not (0.0 <= h1 <= 1.0 and 0.0 <= eh <= 1.0):
+                                viol.append(("hardness/range", info, f"Hardness={h1}, ErrorsAndHardness={eh}"))
+                            if not (h1 == h2 == h3):
+                                viol.append(("hardness/not-repeatable", info, f"three evaluations of the same instance: {h1}, {h2}, {h3}"))
+                        except RealCodeTimeout:
+                            viol.append(("hardness/does-not-return", info, "no result within 120 s (unchanged tree: below a second)"))
+                            hard_left = 0
+                        except Exception as ex:     # noqa: BLE001
+                            viol.append(("hardness/raises-on-decoded-instance", info, repr(ex)))
                     if len(samples) < 2 and slack > 0:
                         samples.append({"template": src.name, "slack": slack, "n_items": int(g.n_items), "area": int(g.total_item_area),
                                         "lower_bound": int(g.lower_bound_bins), "errors": e})
@@ -106,5 +129,6 @@ def harness(tier, seed):
     return {"name": "instgen", "evaluations": evals, "distinct_nontrivial": len(distinct),
             "rule": "templates (4 hand-made small + bundled a01, a04[, a10, beng01, cl01_020_01]) x slack in {0,1,5} x vectors "
                     "(constant special values -1,0,1,+-eps,+-1-+eps,+-0.5; mixed specials; uniform random); decode twice; "
+                    "Hardness / ErrorsAndHardness (max_fes 40, 2 runs) on a few decoded instances: range and three evaluations equal; "
                     "distinct = distinct (template, slack, vector)",
             "samples": samples, "violations": viol, "exhaustive": False}
